@@ -81,7 +81,14 @@ fn what_units(w: &SWhat, out: &mut BTreeSet<(usize, usize)>) {
 
 fn worker(src: &str, base: u64, first: u64, count: u64) -> WorkerOut {
     crate::quiet_panics();
-    crate::watchdog();
+    {
+        let (src, secs) = (src.to_string(), crate::hang_secs(30));
+        crate::watchdog(secs, move |i| {
+            let out = WorkerOut { runs: i - first, failure: Some((i, make_plan(&src, base, i), vec![crate::hang_violation(secs)])), ..WorkerOut::default() };
+            println!("{}", serde_json::to_string(&out).unwrap());
+            std::process::exit(0);
+        });
+    }
     let mut out = WorkerOut::default();
     let mut traces = BTreeSet::new();
     let mut subj = BTreeSet::new();
@@ -145,7 +152,18 @@ fn exec_stdin() -> i32 {
             return 2;
         }
     };
-    let results = plans.iter().map(execute).collect();
+    let secs = crate::hang_secs(10);
+    crate::watchdog(secs, move |_| {
+        let hung = SRunResult { violations: vec![crate::hang_violation(secs)], stats: SRunStats::default(), log: vec!["the run hangs".into()] };
+        println!("{}", serde_json::to_string(&ExecOut { results: vec![hung] }).unwrap());
+        std::process::exit(0);
+    });
+    let mut results = Vec::new();
+    for (i, p) in plans.iter().enumerate() {
+        crate::PROGRESS.store(i as u64, std::sync::atomic::Ordering::Relaxed);
+        results.push(execute(p));
+    }
+    crate::PROGRESS.store(u64::MAX, std::sync::atomic::Ordering::Relaxed);
     println!("{}", serde_json::to_string(&ExecOut { results }).unwrap());
     0
 }
@@ -435,6 +453,7 @@ fn batch(args: &[String]) -> i32 {
         first += n;
     }
     let mut running = std::collections::VecDeque::new();
+    let mut stop_spawning = false;
     while running.len() < jobs as usize {
         match pending.pop_front() {
             Some((f, n)) => running.push_back((f, n, spawn(f, n))),
@@ -452,8 +471,12 @@ fn batch(args: &[String]) -> i32 {
     let mut first_ok = false;
     while let Some((first, n, ch)) = running.pop_front() {
         let o = ch.wait_with_output().expect("worker");
-        if let Some((f2, n2)) = pending.pop_front() {
-            running.push_back((f2, n2, spawn(f2, n2)));
+        // once a violation has been found no further workers are started (in a changed tree
+        // every one of them may cost a hang time-out); those already running are collected
+        if !stop_spawning {
+            if let Some((f2, n2)) = pending.pop_front() {
+                running.push_back((f2, n2, spawn(f2, n2)));
+            }
         }
         let w: WorkerOut = match serde_json::from_slice(&o.stdout) {
             Ok(w) => w,
@@ -474,6 +497,7 @@ fn batch(args: &[String]) -> i32 {
         }
         if let Some(f) = &w.failure {
             failures.push((first, f.clone()));
+            stop_spawning = true;
         }
         if first == 0 {
             first_ok = true;
@@ -611,10 +635,25 @@ fn replay(path: &str) -> i32 {
         eprintln!("replay file is for back-end {}, this binary is {}", rp.backend, amt::BACKEND);
         return 2;
     }
+    {
+        let (secs, kind, path) = (crate::hang_secs(10), rp.kind.clone(), path.to_string());
+        crate::watchdog(secs, move |_| {
+            println!("  the run hangs: no progress for {secs} s");
+            if kind == "hang" {
+                println!("violation reproduced: hang");
+                println!("VIOLATION property={} replay={}", PROP, path);
+                std::process::exit(1);
+            }
+            println!("HARNESS ERROR: the replay hangs, the recorded violation was {kind}");
+            std::process::exit(2);
+        });
+    }
     let mut last = None;
-    for p in &rp.plans {
+    for (i, p) in rp.plans.iter().enumerate() {
+        crate::PROGRESS.store(i as u64, std::sync::atomic::Ordering::Relaxed);
         last = Some(execute(p));
     }
+    crate::PROGRESS.store(u64::MAX, std::sync::atomic::Ordering::Relaxed);
     let res = last.unwrap();
     for l in &res.log {
         println!("  {l}");
